@@ -170,12 +170,17 @@ func init() {
 		{"ext-auth", []string{"auth-url", "oauth", "auth-external-placement"}, []string{"auth-proxy", "external-has-lua"}, map[string]int{"ing_ann": 16, "ing_create": 10, "ing_delete": 8, "global_change": 3},
 			map[string]string{"external-has-lua": "true", "auth-proxy": "_front__auth:14415-14419"},
 			map[string][]string{"auth-url": {"http://10.9.9.9:8000/auth", "http://10.9.9.8:8000/auth", "http://10.9.9.7:8001/check", "http://10.9.9.6:8002/x", "http://authhost.local/x", "svc://a/s2:80", "bad::url", "svc://missing:80"}}},
-		{"tcp", []string{"tcp-service-port"}, nil, map[string]int{"ing_update": 18, "ing_create": 10, "ing_delete": 8}, nil, nil},
+		{"tcp", []string{"tcp-service-port"}, nil, map[string]int{"ing_update": 18, "ing_create": 10, "ing_delete": 8}, nil,
+			map[string][]string{"tcp-service-port": {"7000", "7000", "7000", "7001"}}},
 		{"tls", []string{"auth-tls-secret", "secure-crt-secret", "secure-verify-ca-secret", "secure-backends"}, nil, map[string]int{"secret_rotate": 12, "secret_delete": 6, "secret_create": 8, "secret_break": 3}, nil, nil},
 		{"affinity", []string{"affinity", "session-cookie-preserve", "session-cookie-value-strategy", "dynamic-scaling", "slots-min-free", "blue-green-deploy", "initial-weight"}, []string{"dynamic-scaling", "drain-support"}, map[string]int{"ep_scale": 25, "ep_ready": 10, "ep_replace": 12, "pod_term": 6}, nil, nil},
 	}
 	mkFocus := func(prop string, f focus, or OracleSet, lagfree func(r *rand.Rand) bool, shards bool) {
-		register(&Profile{Name: "focus-" + f.name, Prop: prop, Weight: 1, Oracles: or,
+		weight := 1
+		if f.name == "tcp" {
+			weight = 3 // several ingresses on one TCP port is the rare structure (seeded change C05-m2)
+		}
+		register(&Profile{Name: "focus-" + f.name, Prop: prop, Weight: weight, Oracles: or,
 			Build: func(seed uint64, tier string) *RunConfig {
 				r := cfgRng(seed)
 				mn, mx := tierOps(tier, 8, 26)
